@@ -77,7 +77,8 @@ def make_spec(case):
 
 def surr_spec(case):
     """Multi-output provider family."""
-    sargs = {"base": ["x"], "chain": ["c0"], "own": ["a"], "loop": ["c1"], "loop3": ["c3"]}[case["variant"]]
+    sargs = {"base": ["x"], "chain": ["c0"], "own": ["a"], "loop": ["c1"], "loop3": ["c3"],
+             "names-surrogate": ["x"], "names-surrogate-and-missing": ["x"], "surrogate-names-itself": ["s"]}[case["variant"]]
     comps = {
         "s": {"kind": "surrogate", "name": "s", "args": sargs, "outputs": ["a", "b"],
               "exprs": [["add", V(3.0), ["mul", V(2.0), N(sargs[0])]], ["add", V(5.0), ["mul", V(7.0), N(sargs[0])]]],
@@ -88,6 +89,11 @@ def surr_spec(case):
         "c3": {"kind": "reaction", "name": "c3", "args": ["a", "b", "c1"],
                "expr": ["add", ["mul", V(5.0), N("a")], ["add", ["mul", V(7.0), N("b")], N("c1")]], "stoich": {"x": 1}},
     }
+    # a surrogate's *name* is not a value: only its outputs are. Components naming it are incomplete.
+    if case["variant"] == "names-surrogate":
+        comps["c2"] = {"kind": "derived", "name": "c2", "args": ["s", "b"], "expr": ["add", V(13.0), ["mul", V(3.0), N("b")]]}
+    elif case["variant"] == "names-surrogate-and-missing":
+        comps["c2"] = {"kind": "derived", "name": "c2", "args": ["s", "m1"], "expr": ["add", V(13.0), ["mul", V(3.0), N("m1")]]}
     decl = [{"kind": "variable", "name": "x", "value": 1.5}]
     decl += [comps[c] for c in case["perm"]]
     return {"decl": decl}
@@ -293,7 +299,7 @@ def generate(tier):
         for adj in (chain, tree, cross, cyc):
             for perm in it.permutations(range(n)):
                 cases.append({"n": n, "adj": adj, "perm": list(perm), "kinds": ("drpv" * 2)[:n] if n % 2 else "d" * n})
-    for variant in ("base", "chain", "own", "loop", "loop3"):
+    for variant in ("base", "chain", "own", "loop", "loop3", "names-surrogate", "names-surrogate-and-missing", "surrogate-names-itself"):
         for perm in it.permutations(["s", "c0", "c1", "c2", "c3"]):
             cases.append({"family": "surr", "variant": variant, "perm": list(perm)})
     yield cases
